@@ -87,7 +87,12 @@ def local_checks(b, rs, viol, stats):
         em = compare.mean_err(m, embed.vec_np(st["m"]), q, d, h)
         ec = compare.cov_err(P, embed.to_np(st["P"]), embed.to_np(st["Ppred"]))
         ill = compare.ill_conditioned(st["kappa"])
-        tol_c = compare.TOL_LOCAL_COV
+        # conditioning of the prediction itself (e.g. inexact initial std on all coefficients with tiny steps:
+        # cond 1e17 observed): a square-root update loses about eps * sqrt(cond)
+        kP = compare.corr_cond(embed.to_np(st["Ppred"]))
+        stats["cond_pred_max"] = max(stats.get("cond_pred_max", 0.0), kP if kP != float("inf") else 1e32)
+        tol_m = compare.cond_tol(compare.TOL_LOCAL_MEAN, kP)
+        tol_c = compare.cond_tol(compare.TOL_LOCAL_COV, kP, 1e4)
         if cfg["calib"] == "dynamic":
             tol_c = max(tol_c, 10 * compare.scale_tol(st["kappa"]))
             sref = onp.sqrt(embed.vec_np(st["s2"]))
@@ -102,8 +107,8 @@ def local_checks(b, rs, viol, stats):
                     viol.append({"inv": "EKF-scale", "msg": f"dynamic output scale differs from the documented local estimate: rel {es:.2e} (kappa {st['kappa']:.1e})",
                                  "t": float(pre.t), "h": h})
         worst["mean"] = max(worst["mean"], em)
-        if em > compare.TOL_LOCAL_MEAN:
-            viol.append({"inv": "EKF-mean", "msg": f"posterior mean after one step differs from the reference EKF step: {em:.2e}",
+        if em > tol_m:
+            viol.append({"inv": "EKF-mean", "msg": f"posterior mean after one step differs from the reference EKF step: {em:.2e} (tol {tol_m:.1e})",
                          "t": float(pre.t), "h": h})
         if not (ill and cfg["calib"] == "dynamic"):
             worst["cov"] = max(worst["cov"], ec)
@@ -153,11 +158,14 @@ def e2e_checks(sc, b, rs, err, sol, viol, stats):
         ec = compare.cov_err(P, embed.to_np(Pref), embed.to_np(Pp))
         stats["worst_e2e_mean"] = max(stats.get("worst_e2e_mean", 0.0), em)
         tol_m = compare.TOL_GLOBAL_MEAN * max(1.0, 1e3 * compare.EPS * kap / 1e-8) if cfg["calib"] == "dynamic" else compare.TOL_GLOBAL_MEAN
+        kPmax = stats.get("cond_pred_max", 1.0)
+        tol_m = max(tol_m, 100 * compare.cond_tol(compare.TOL_LOCAL_MEAN, kPmax))
         if em > tol_m and not (ill and cfg["calib"] == "dynamic"):
             viol.append({"inv": "E2E-mean", "msg": f"trajectory mean at grid point {k} differs from the reference EKF: {em:.2e}"})
         if scaled and ill:
             continue
         tol_c = compare.TOL_GLOBAL_COV + (100 * compare.scale_tol(kap) if scaled else 0.0)
+        tol_c = max(tol_c, 100 * compare.cond_tol(compare.TOL_LOCAL_COV, kPmax, 1e4))
         stats["worst_e2e_cov"] = max(stats.get("worst_e2e_cov", 0.0), ec)
         if ec > tol_c:
             viol.append({"inv": "E2E-cov", "msg": f"trajectory covariance at grid point {k} differs from the reference EKF: {ec:.2e} (tol {tol_c:.1e})"})
